@@ -28,6 +28,7 @@ func (s *Sim) oracleMore(op Op, evs []SIEvent, preds []PredCall) {
 	s.oracleC06(op, evs)
 	s.oracleC13(op, evs)
 	s.oracleC07(op, evs)
+	s.oracleC17(op, evs)
 }
 
 func (s *Sim) checkDrainedMore() {}
